@@ -4,7 +4,7 @@
  *
  *   init <nloops> <loop-of-h0> <loop-of-h1> ...
  *   script <k> <op>:<h>[:<sig>] ...      ops of the k-th signal callback (global count)
- *   start hN sig | oneshot hN sig | stop hN | close hN | raise sig | run L
+ *   start hN sig | oneshot hN sig | stop hN | close hN | ref hN | unref hN | raise sig | run L
  *   runraise L sig [op:h[:sig] ...]
  *                      one loop iteration during which `sig` is raised (and the ops are performed)
  *                      from a uv_check callback, i.e. after the poll phase, before the closing phase
@@ -55,6 +55,13 @@ static int usable(int i) { return i >= 0 && i < nh && !freed[i] && !uv_is_closin
 
 /* returns 1 and sets *rc when the op was performed */
 static int do_op(const char* op, int i, int sig, int* rc) {
+  /* uv_ref/uv_unref are legal on a closing handle (until close_cb releases the memory) */
+  if (!strcmp(op, "ref") || !strcmp(op, "unref")) {
+    if (i < 0 || i >= nh || freed[i]) return 0;
+    if (op[0] == 'r') uv_ref((uv_handle_t*) hs[i]); else uv_unref((uv_handle_t*) hs[i]);
+    *rc = 0;
+    return 1;
+  }
   if (!usable(i)) return 0;           /* API precondition: not closing (assert in libuv) */
   if (!strcmp(op, "start")) *rc = uv_signal_start(hs[i], signal_cb, sig);
   else if (!strcmp(op, "oneshot")) *rc = uv_signal_start_oneshot(hs[i], signal_cb, sig);
@@ -101,8 +108,8 @@ static void obs(void) {
   printf("\nobs handles");
   for (int i = 0; i < nh; i++) {
     if (freed[i]) { printf(" %d:x", i); continue; }
-    printf(" %d:%d%s:%d:%u:%u", i, uv_is_active((uv_handle_t*) hs[i]), uv_is_closing((uv_handle_t*) hs[i]) ? "c" : "",
-           hs[i]->signum, hs[i]->caught_signals, hs[i]->dispatched_signals);
+    printf(" %d:%d%s:%d:%u:%u:%c", i, uv_is_active((uv_handle_t*) hs[i]), uv_is_closing((uv_handle_t*) hs[i]) ? "c" : "",
+           hs[i]->signum, hs[i]->caught_signals, hs[i]->dispatched_signals, uv_has_ref((uv_handle_t*) hs[i]) ? 'r' : 'u');
   }
   printf("\n");
 }
@@ -110,6 +117,11 @@ static void obs(void) {
 int main(void) {
   char line[8192];
   setvbuf(stdout, NULL, _IOLBF, 0);
+  {  /* do not depend on what the parent left behind (nohup: SIGHUP ignored; blocked signals) */
+    sigset_t set; sigemptyset(&set);
+    for (int j = 0; j < NSIGS; j++) { signal(SIGS[j], SIG_DFL); sigaddset(&set, SIGS[j]); }
+    sigprocmask(SIG_UNBLOCK, &set, NULL);
+  }
   while (fgets(line, sizeof line, stdin)) {
     char op[16]; int i, sig = 0, off; unsigned k;
     if (!strncmp(line, "init ", 5)) {
@@ -144,7 +156,8 @@ int main(void) {
       obs();
     } else if (sscanf(line, "%15s h%d %d", op, &i, &sig) >= 2 && i >= 0 && i < nh) {
       int rc;
-      if (strcmp(op, "start") && strcmp(op, "oneshot") && strcmp(op, "stop") && strcmp(op, "close")) { printf("bad-op\n"); continue; }
+      if (strcmp(op, "start") && strcmp(op, "oneshot") && strcmp(op, "stop") && strcmp(op, "close") &&
+          strcmp(op, "ref") && strcmp(op, "unref")) { printf("bad-op\n"); continue; }
       if (do_op(op, i, sig, &rc)) printf("ret %d\n", rc); else printf("ret skip\n");
       obs();
     } else if (line[0] != '\n') printf("bad-op\n");
